@@ -296,7 +296,7 @@ class ProgramDB:
     def __init__(self, repo: str = None, pkg_rel: str = PKG_REL, overrides: Dict[str, str] = None):
         """overrides: module short name -> source text, replacing (or adding to) what is on disk; used only for
         the built-in positive examples and the thorough tier's checker-sensitivity variants (in memory)."""
-        self.overrides = dict(overrides or {})
+        self.source_overrides = dict(overrides or {})
         self.repo = repo or REPO
         self.pkg_dir = os.path.join(self.repo, pkg_rel)
         self.modules: Dict[str, ModuleInfo] = {}
@@ -321,15 +321,15 @@ class ProgramDB:
             except SyntaxError as e:
                 raise AnalysisError(f"{path} does not parse: {e}")
             name = fn[:-3]
-            if name in self.overrides:
-                src = self.overrides[name]
+            if name in self.source_overrides:
+                src = self.source_overrides[name]
                 try:
                     tree = ast.parse(src, filename=path)
                 except SyntaxError as e:
                     raise AnalysisError(f"override of {name} does not parse: {e}")
             mod = ModuleInfo(name, path, src, tree)
             self.modules[name] = mod
-        for name, src in self.overrides.items():
+        for name, src in self.source_overrides.items():
             if name not in self.modules:
                 path = os.path.join(self.pkg_dir, name + ".py")
                 self.modules[name] = ModuleInfo(name, path, src, ast.parse(src, filename=path))
